@@ -128,15 +128,22 @@ impl QueryBuilder for MysqlQueryBuilder {
     }
 
     fn prepare_order_expr(&self, order_expr: &OrderExpr, sql: &mut dyn SqlWriter) {
-        match order_expr.nulls {
-            None => (),
-            Some(NullOrdering::Last) => {
-                self.prepare_simple_expr(&order_expr.expr, sql);
-                write!(sql, " IS NULL ASC, ").unwrap()
+        if let Some(nulls) = &order_expr.nulls {
+            // the expression becomes the operand of `IS NULL`
+            let expr_paren = !self.inner_expr_well_known_greater_precedence(
+                &order_expr.expr,
+                &Oper::BinOper(BinOper::Is),
+            );
+            if expr_paren {
+                write!(sql, "(").unwrap();
             }
-            Some(NullOrdering::First) => {
-                self.prepare_simple_expr(&order_expr.expr, sql);
-                write!(sql, " IS NULL DESC, ").unwrap()
+            self.prepare_simple_expr(&order_expr.expr, sql);
+            if expr_paren {
+                write!(sql, ")").unwrap();
+            }
+            match nulls {
+                NullOrdering::Last => write!(sql, " IS NULL ASC, ").unwrap(),
+                NullOrdering::First => write!(sql, " IS NULL DESC, ").unwrap(),
             }
         }
         if !matches!(order_expr.order, Order::Field(_)) {
